@@ -58,6 +58,13 @@ chk("C12", E3, "exploration",
     "bounded-exhaustive operation-sequence enumeration against a reference model",
     "Trusted: the byte-coverage reference model in /verif/h/c12/model.go; overlapping re-partitions are outside the property's quantifier.")
 
+chk("C04", E1, "model_checking",
+    "On-path MITM with its own parser/re-framer over 32 handshake modes (key exchange x EMS x full/resumed x hello-verify x version): every cleartext handshake message in either direction x every field-level mutation of a per-message catalogue (thorough: plus every single-bit flip of every body: 151k executions), applied consistently to retransmissions; oracle: no endpoint that sent or received an altered message reports success and no completing side holds a steered parameter, with the two RFC 6347 4.2.6 carve-outs made explicit.",
+    "stateless model checking of the implementation: exhaustive message x field/bit mutation enumeration under a man-in-the-middle network")
+chk("C05", E1, "model_checking",
+    "For 10 suite classes x CID/padding/short-header layouts x payload lengths x direction: every single-bit flip of the whole datagram, every truncation, junk extension, every header-field edit, splice, reflection, epoch-0 forms, keyed wrong-CID records, CBC block runs and padding malleation, injected into an established connection (chained and one-per-fresh-connection); oracle: nothing delivered, nothing emitted, the genuine record still accepted exactly once afterwards. 155k executions quick / 656k thorough.",
+    "stateless model checking of the implementation: exhaustive single-record forgery enumeration against the real receiver")
+
 props = [json.loads(l) for l in open('/verif/properties.jsonl')]
 PENDING = "check not built yet in this session (planned in DESIGN.md §5); not a claim that the technique cannot apply"
 NA = {}
